@@ -131,6 +131,30 @@ def exotic_runs(rep, rnd, stats, tier):
                 check_trace(rep, case, run, nodes, fail_at, f"exotic-value:{kind}:{where}", stats)
 
 
+def unusual_failures(rep, rnd, stats):
+    """Nodes failing with unusual exceptions (no message, non-JSON argument, keyword-only constructor): the failing SER, the
+    error pipeline_end and the unchanged exception are owed all the same."""
+    from props.c10 import FAILING_NODES
+    for proc in FAILING_NODES:
+        if proc == "TFailKI":
+            continue                      # covered by the keyboard-interrupt fault kind
+        for pos in (1, 2):
+            nodes = [{"processor": "TSourceDef"}, {"processor": "TOp0"}, {"processor": "TOp0"}]
+            nodes.insert(pos, {"processor": proc})
+            plain = pipegen.run_real(nodes, {})
+            detail, to_file = rnd.choice(tracegen.DETAILS), rnd.random() < 0.5
+            run = tracegen.traced_run(nodes, {}, detail=detail, to_file=to_file)
+            stats["runs"] += 1
+            stats["by_kind"]["unusual-failure"] = stats["by_kind"].get("unusual-failure", 0) + 1
+            case = {"fault": f"unusual-failure:{proc}", "position": pos, "detail": detail, "output": "file" if to_file else "directory",
+                    "untraced_class": plain["cls"][1] if plain["cls"] else None}
+            check_trace(rep, case, run, nodes, pos, f"unusual-failure:{proc}", stats)
+            if run["res"]["exc"] is not None and plain["exc"] is not None and type(run["res"]["exc"]) is not type(plain["exc"]):
+                rep.add_violation(f"exception-changed:unusual-failure:{proc}",
+                                  f"the traced run raises {type(run['res']['exc']).__name__}, the untraced run {type(plain['exc']).__name__}",
+                                  dict(case, nodes=nodes, traced=repr(run["res"]["exc"]), untraced=repr(plain["exc"])))
+
+
 def run(tier: str) -> int:
     rep = core.Report(PROP, tier)
     rnd = core.rng(PROP)
@@ -176,6 +200,7 @@ def run(tier: str) -> int:
                 if len(samples) < 5 and stats["runs"] % 23 == 1:
                     samples.append(dict(case, nodes=[x["processor"] for x in nodes], events=got))
     exotic_runs(rep, rnd, stats, tier)
+    unusual_failures(rep, rnd, stats)
     if shape is not None:
         try:
             ans = core.Driver().run(reqs)
